@@ -133,6 +133,9 @@ def _short(d):
     return {k[:6]: (None if v is None else (v[:12], len(v))) for k, v in d.items()}
 
 
+_KNOWN_HANDLE_ATTRS = ('_folder', '_operation_session', '_config', '_current_pack_id')
+
+
 def handle_state(h: Container):
     """Observable in-memory state of a handle (part of the canonical state), read without disturbing it."""
     sess = getattr(h, '_operation_session', None)
@@ -154,4 +157,10 @@ def handle_state(h: Container):
             s = ('pinned', vis)
         else:
             s = ('idle',)
+    # any further scalar the handle remembers (a memoised configuration value, a counter, ...) is part of its state too:
+    # two histories that leave different remembered values must not be merged (on the unchanged library this only tells apart whether `_container_session` is still None)
+    extras = tuple(sorted((k, repr(v)) for k, v in vars(h).items()
+                          if k not in _KNOWN_HANDLE_ATTRS and isinstance(v, (int, str, bool, float, bytes, type(None)))))
+    if extras:
+        return (getattr(h, '_current_pack_id', None), s, extras)
     return (getattr(h, '_current_pack_id', None), s)
